@@ -34,7 +34,7 @@ void ob_c20_resize(A& a, const std::array<size_t,R>& req_, const std::array<size
         for_<R>([&](auto I){
             OBLIGE("C20.resize.shape", (size_t)rd<I.value>(a.shape_) == rd<I.value>(req), KIND, R, I.value);
             OBLIGE("C20.resize.strides", (size_t)rd<I.value>(a.strides_) == (layout_stride<false,R,I.value>(req)), KIND, R, I.value);
-            OBLIGE("C20.resize.functor_strides", (size_t)rd<I.value>(a.offset_.strides_) == (layout_stride<ColMajor,R,I.value>(req)), KIND, R, I.value);
+            OBLIGE("C20.resize.functor_strides|C01.O5.functor_strides", (size_t)rd<I.value>(a.offset_.strides_) == (layout_stride<ColMajor,R,I.value>(req)), KIND, R, I.value);
         });
         size_t n = 1; for_<R>([&](auto I){ n *= rd<I.value>(req); });
         OBLIGE("C20.resize.numel", n == (size_t)nm::len(a.data_), KIND, R);
@@ -75,7 +75,7 @@ void ob_c20_ctor()
     size_t n = 1; for_<R>([&](auto I){ n *= (size_t)rd<I.value>(a.shape_); });
     OBLIGE("C20.ctor.numel", n == (size_t)nm::len(a.data_), KIND, R);
     for_<R>([&](auto I){
-        OBLIGE("C20.ctor.functor_strides", (size_t)rd<I.value>(a.offset_.strides_) == (layout_stride<ColMajor,R,I.value>(a.shape_)), KIND, R, I.value);
+        OBLIGE("C20.ctor.functor_strides|C01.O5.ctor_functor_strides", (size_t)rd<I.value>(a.offset_.strides_) == (layout_stride<ColMajor,R,I.value>(a.shape_)), KIND, R, I.value);
     });
 }
 template <class A, size_t R>
